@@ -14,6 +14,7 @@ mod tp;
 mod util;
 mod viol;
 mod wl_access;
+mod wl_cache;
 mod wl_core;
 mod wl_dual;
 mod wl_kinds;
@@ -53,6 +54,7 @@ fn main() {
         "panic" => cmd_panic(&args),
         "dual" => cmd_dual(&args),
         "sb" => cmd_sb(&args),
+        "cache" => cmd_cache(&args),
         "reent" => {
             sched::set_mode(Mode::Off);
             let n = wl_reent::run();
@@ -310,6 +312,45 @@ fn cmd_race(a: &Args) -> i32 {
     let live = if val == "arc" { tp::ARC_LIVE.load(std::sync::atomic::Ordering::Relaxed) } else { tp::LIVE_OBJS.load(std::sync::atomic::Ordering::Relaxed) };
     if live != 0 {
         runner::violation("C02", "leak", format!("{} value(s) alive after everything was dropped", live), &json!({"workload": "race", "seed": seed, "shard": shard}));
+    }
+    0
+}
+
+/// Every way of reading through a Cache (C16). Keys: execs (sequential programs), rounds (concurrent rounds), seed, shard.
+fn cmd_cache(a: &Args) -> i32 {
+    tp::set_alloc_mode(AllocMode::Real);
+    sched::set_mode(if a.flag("nohooks") { Mode::Off } else { Mode::Free });
+    let seed = a.u64("seed", 1);
+    let shard = a.u64("shard", 0);
+    let execs = a.u64("execs", 200);
+    let rounds = a.u64("rounds", 10);
+    let stores = a.u64("stores", if cfg!(miri) { 6 } else { 2000 });
+    runner::start_watchdog(a.u64("stall_s", 120));
+    let mut reads = 0u64;
+    for n in 0..execs {
+        let s = util::mix(seed.wrapping_mul(0x7000_0011), shard * 1_000_000 + n);
+        reads += if n % 2 == 0 { wl_cache::sequential::<DefaultStrategy>(s) } else { wl_cache::sequential::<FillFastSlots>(s) };
+        sched::PROGRESS.fetch_add(1, std::sync::atomic::Ordering::Relaxed);
+        runner::with(|r| r.execs += 1);
+        if runner::with(|r| r.violations.len()) + crate::viol::count() >= 5 {
+            break;
+        }
+    }
+    runner::count("cache.seq.reads_checked", reads);
+    let mut creads = 0u64;
+    for n in 0..rounds {
+        let s = util::mix(seed.wrapping_mul(0x7000_0013), shard * 1_000_000 + n);
+        creads += if n % 2 == 0 { wl_cache::concurrent::<DefaultStrategy>(s, stores, 3) } else { wl_cache::concurrent::<FillFastSlots>(s, stores, 3) };
+        sched::PROGRESS.fetch_add(1, std::sync::atomic::Ordering::Relaxed);
+        runner::with(|r| r.execs += 1);
+    }
+    runner::count("cache.concurrent.reads_checked", creads);
+    runner::with(|r| r.ops += reads + creads);
+    runner::count("distinct_nontrivial", execs + rounds);
+    runner::collect_violations(&json!({"workload": "cache", "seed": seed, "shard": shard}));
+    let live = tp::ARC_LIVE.load(std::sync::atomic::Ordering::Relaxed);
+    if live != 0 {
+        runner::violation("C02", "leak", format!("{} value(s) alive after everything was dropped", live), &json!({"workload": "cache", "seed": seed, "shard": shard}));
     }
     0
 }
